@@ -24,8 +24,12 @@ META = {
     "text": "Ledger over the global message order: at every prefix, data+extended-data bytes sent <= granted window + "
             "adjusts the peer has sent; every data message <= peer max packet; adjusts sent <= bytes consumed by the "
             "application. Checked (1) after every transition of all histories up to depth 4/5 over boundary sizes for "
-            "(W,P) configurations around the clamps, and (2) on every schedule within delay bound 1/2 of 2 sender "
-            "threads + 1 receiver thread over two live transports.",
+            "(W,P) configurations around the clamps (payloads as bytes and as non-ASCII text), (2) on every schedule "
+            "within delay bound 1/2 of 2 sender threads + 1 or 2 receiver threads over two live transports, and (3) "
+            "[counter seams] on every schedule with <=2/3 preemptions at source-line granularity (every line of "
+            "channel.py and of Message.get_* is a scheduling point) of the threads that touch a credit counter: two "
+            "readers acknowledging, WINDOW_ADJUST dispatch racing one or two senders / a reader, arriving data "
+            "racing a reader (one preemption less with three threads), followed by a fair drain.",
     "note": "sizes from boundary classes; part 2 uses delay bounding (every non-default scheduling choice costs 1); "
             "adjusts are credited when sent (the lenient reading of the statement)",
     "design_ref": "4/C19",
@@ -244,12 +248,141 @@ def sched_item(item, acc):
                     "schedules": res.executions, "wire_shapes(got,data_msgs,adjusts)": sorted(sigs)[:4]})
 
 
+# ------------------------------------------------------------------ part 3: counter seams, line granularity
+# Parts 1-2 schedule at synchronisation operations only, which is sufficient exactly as long as every access
+# to the two credit counters (out_window_size, in_window_sofar) happens under the channel lock.  That premise
+# is checked here instead of assumed: the threads that touch a counter are raced with every source line of
+# paramiko/channel.py and paramiko/message.py a scheduling point (preemption bounded), followed by a fair
+# drain; the same ledger judges the wire order.
+import paramiko.channel as _pchannel
+import paramiko.message as _pmessage
+
+TRACE = {_pchannel.__file__: None, _pmessage.__file__: {"get_int", "get_bytes", "get_adaptive_int", "get_int64"}}
+SEAMS = ["readers:recv+recv_stderr", "readers:recv+recv", "adjust+send", "adjust+send+send_stderr",
+         "feed+recv", "adjust+reader+send"]
+
+
+def make_seam_body(scn):
+    kind, W, P = scn
+
+    def body(s):
+        import socket
+        st = chanflow.State(W, P, 8 * W)
+        cp, a, b = st.cp, st.cp.a, st.cp.b
+        T = W // 10
+        consumed = [0, 0, 0]
+
+        def reader(i, fn, n):
+            try:
+                consumed[i] += len(fn(n))
+            except socket.timeout:
+                pass
+
+        def sender(fn, n):
+            try:
+                k = fn(b"d" * n)
+                st.remaining -= k
+            except socket.timeout:
+                pass
+
+        def wire(frm, count=1):
+            for _ in range(count):
+                cp.deliver(frm)
+        ths = []
+        if kind.startswith("readers"):
+            # both streams hold a bit more than the acknowledgement threshold
+            a.send(b"d" * (T + 2))
+            a.send_stderr(b"e" * (T + 2))
+            if kind.endswith("recv+recv"):
+                a.send(b"d" * (T + 2))
+            cp.deliver_all()
+            fn2 = b.recv_stderr if kind.endswith("recv_stderr") else b.recv
+            ths = [vthreading.Thread(target=reader, args=(0, b.recv, T + 2)),
+                   vthreading.Thread(target=reader, args=(1, fn2, T + 2))]
+        elif kind.startswith("adjust"):
+            # A has used most of its window; B's application has read enough for one WINDOW_ADJUST, which is in
+            # flight while A's application sends again
+            k = a.send(b"d" * min(P - 64, W - 2000))
+            cp.deliver_all()
+            consumed[2] += len(b.recv(k))
+            assert cp.outbox("B"), "pre-state must have a WINDOW_ADJUST in flight"
+            ths = [vthreading.Thread(target=wire, args=("B",)),
+                   vthreading.Thread(target=sender, args=(a.send, 1000))]
+            if "send_stderr" in kind:
+                ths.append(vthreading.Thread(target=sender, args=(a.send_stderr, 700)))
+            if "reader" in kind:
+                a.send(b"d" * (T + 2))
+                cp.deliver("A")
+                ths.append(vthreading.Thread(target=reader, args=(0, b.recv, T + 2)))
+        elif kind == "feed+recv":
+            # data arrives (transport thread) while the application reads what is already buffered
+            a.send(b"d" * (T + 2))
+            cp.deliver_all()
+            a.send(b"d" * (T + 2))
+            ths = [vthreading.Thread(target=wire, args=("A",)),
+                   vthreading.Thread(target=reader, args=(0, b.recv, 2 * T + 4))]
+        s.branching = True
+        s.line_points = True
+        for t in ths:
+            t.start()
+        for t in ths:
+            t.join()
+        s.branching = False
+        s.line_points = False
+        errs = [t._vt_rec.obj for t in ths if t._vt_rec.obj is not None]
+        if errs:
+            raise errs[0]
+        st.consumed = sum(consumed)
+        # fair drain: the sender uses whatever window it believes it has, the reader reads everything
+        before = st.consumed
+        done, steps = st.fair_finish(200)
+        v = st.ledger()
+        shape = tuple((sd, m[0], len(m[2][1]) if isinstance(m[2][1], bytes) else m[2][1]) for sd, m in st.glog)
+        return v, shape, a.out_window_size, b.in_window_sofar
+    return body
+
+
+def seam_item(item, acc):
+    tier, scn, bound, shard = item
+    body = make_seam_body(scn)
+    shapes = set()
+
+    def on_exec(ex):
+        acc.ev()
+        if ex.outcome != "ok":
+            acc.violation("seam:harness-outcome:%s:%s" % (ex.outcome, type(ex.error).__name__),
+                          {"scn": scn, "err": repr(ex.error)[:300]},
+                          {"part": "seam", "scn": scn, "choices": ex.choices})
+            return
+        v, shape, ow, sofar = ex.value
+        if shape not in shapes:
+            shapes.add(shape)
+            acc.nt(("seam", scn, shape))
+        if v is not None:
+            acc.violation("ledger:%s:counter-seam:%s" % (v[0], scn[0]),
+                          {"scn": scn, "why": v[1], "choices": ex.choices},
+                          {"part": "seam", "scn": scn, "choices": ex.choices})
+    res = explore.explore(body, bound, "preempt", cap=40000, on_exec=on_exec, sched_kw={"trace_files": TRACE},
+                          shard=shard)
+    acc.count("seam_schedules", res.executions)
+    if shard[0] == 0:
+        acc.count("seam_scenarios")
+    acc.count("seam_distinct_wire_orders", len(shapes))
+    if res.capped:
+        acc.note("seam cap 40000 hit for %r" % (scn,))
+    if len(acc.samples) < 6 and len(shapes) > 1:
+        acc.sample({"part": "seam", "scenario": scn[0], "W": scn[1], "P": scn[2], "schedules": res.executions,
+                    "preemption_bound": bound, "distinct_wire_orders": len(shapes)})
+
+
 def main(tier):
     ck = core.Check(PID, tier, "exploration",
                     "part 1: BFS over histories of boundary-size send/recv/deliver events per (W,P), ledger after every "
                     "transition; part 2: every schedule within the delay bound of 2 senders + 1 receiver on live "
-                    "transports, ledger on the recorded wire order; nontrivial = distinct canonical flow-control states "
-                    "(bfs) + distinct wire shapes with >=1 WINDOW_ADJUST (sched)",
+                    "transports, ledger on the recorded wire order; part 3: every schedule within the preemption bound at "
+                    "source-line granularity of the counter seams (readers || readers, adjust || senders, feed || reader) "
+                    "on a ChannelPair + fair drain; nontrivial = distinct canonical flow-control states "
+                    "(bfs) + distinct wire shapes with >=1 WINDOW_ADJUST (sched) + distinct wire orders (seams)",
                     ["adjusts credited when sent (lenient)", "delay bounding for part 2",
                      "ChannelPair dispatch replicated by the harness (part 1); bound to Transport.run by part 2"])
     if tier == "quick":
@@ -278,14 +411,27 @@ def main(tier):
         items.append(("sched", tier, (W, P, (("send", T + 2), ("send_err", T + 2)), ("2R", T + 2)), bound))
         items.append(("sched", tier, (W, P, (("send", W + 1), ("send_err", Pe)), ("2R", 1000, W)), bound))
 
+    pb = 2 if tier == "quick" else 3
+    for kind in SEAMS:
+        for (W, P) in ([(32768, 32768)] if tier == "quick" else [(32768, 32768), (40000, 4096)]):
+            three = kind.count("+") >= 2
+            b = pb - 1 if three else pb           # three threads: one preemption less
+            if (W, P) != (32768, 32768):
+                b -= 1                            # second configuration: one preemption less
+            nsh = 4 if b == 2 else (16 if b >= 3 else 1)
+            items += [("seam", tier, (kind, W, P), b, (k, nsh)) for k in range(nsh)]
+
     def run(item, acc):
         if item[0] == "bfs":
             bfs_item(item[1:], acc)
+        elif item[0] == "seam":
+            seam_item(item[1:], acc)
         else:
             sched_item(item[1:], acc)
     ck.extra["bfs_depth"] = depth
     ck.extra["delay_bound"] = bound
-    items.sort(key=lambda it: 0 if it[0] == "sched" else 1)      # long items first
+    ck.extra["seam_preemption_bound"] = pb
+    items.sort(key=lambda it: 0 if it[0] in ("sched", "seam") else 1)      # long items first
     ck.merge(core.pmap(items, run))
     ck.exhaustive = False
     ck.caps.append("depth-bounded BFS; delay-bounded schedules")
@@ -305,6 +451,10 @@ def replay(rec):
         v = st.ledger()
         print("ledger verdict:", v)
         return 1 if v else 0
+    if r["part"] == "seam":
+        ex = explore.replay(make_seam_body(tuple(r["scn"])), r["choices"], "preempt", {"trace_files": TRACE})
+        print(ex.outcome, ex.error, ex.value and (ex.value[0], ex.value[2:]))
+        return 1 if (ex.outcome != "ok" or ex.value[0] is not None) else 0
     scn = r["scn"]
     scn = (scn[0], scn[1], tuple(tuple(x) for x in scn[2]), tuple(scn[3]))
     ex = explore.replay(make_body(scn), r["choices"], "delay", {"horizon": S.EPOCH + 120})
